@@ -347,9 +347,13 @@ pub fn gen_case(t: &mut Tape) -> Case {
                 l[p] = b'x';
             }
         }
-        if term != Term::Lf && t.chance(1, 10) {
+        if term != Term::Lf && t.chance(1, 3) {
             // the other plausible terminators are ordinary bytes here
-            l.push(if term == Term::Nul { b'\n' } else { 0 });
+            let k = 1 + t.below(4);
+            for _ in 0..k {
+                let p = t.below(l.len() + 1);
+                l.insert(p, if term == Term::Nul { b'\n' } else { 0 });
+            }
         }
         lines.push(Bs(l));
     }
